@@ -2398,15 +2398,14 @@ def parse_item_tokens(line_tokens):
         return STypeInstruction(line, name, rs1, rs2, imm)
     # b-type instructions
     elif head in B_TYPE_INSTRUCTIONS:
-        if len(tokens) != 4:
+        if len(tokens) < 4:
             raise AssemblerError('b-type instructions require 3 args', line)
-        name, rs1, rs2, reference = tokens
+        name, rs1, rs2, *imm = tokens
         name = name.lower()
-        if is_int(reference):
-            imm = [reference]
-        else:
-            # behavior is "offset" for branches to labels
-            imm = ['%offset', reference]
+        # behavior is "offset" for branches to labels, anything else
+        # (a number, an expression, a modifier) is the offset as written
+        if len(imm) == 1 and not is_int(imm[0]):
+            imm = ['%offset', imm[0]]
         imm = parse_immediate(imm, line)
         return BTypeInstruction(line, name, rs1, rs2, imm)
     # u-type instructions
@@ -2422,15 +2421,14 @@ def parse_item_tokens(line_tokens):
             name, *args = tokens
             name = name.lower()
             return PseudoInstruction(line, name, *args)
-        if len(tokens) != 3:
+        if len(tokens) < 3:
             raise AssemblerError('j-type instructions require 1 or 2 args', line)
-        name, rd, reference = tokens
+        name, rd, *imm = tokens
         name = name.lower()
-        if is_int(reference):
-            imm = [reference]
-        else:
-            # behavior is "offset" for jumps to labels
-            imm = ['%offset', reference]
+        # behavior is "offset" for jumps to labels, anything else
+        # (a number, an expression, a modifier) is the offset as written
+        if len(imm) == 1 and not is_int(imm[0]):
+            imm = ['%offset', imm[0]]
         imm = parse_immediate(imm, line)
         return JTypeInstruction(line, name, rd, imm)
     # fence instructions
